@@ -19,7 +19,7 @@ from fjv.runner import Run, Sieve, parse_args, pmap, load_replay, main_guard
 PROP = 'C03'
 
 
-def assemble_image(texts, w, wd, tag, use_stl=False):
+def assemble_image(texts, w, wd, tag, use_stl=False, werror=False):
     """-> ('ok', normalized image) | ('rejected', msg) | ('raw', msg)"""
     from fjv.asm import assemble_text
     from fjv.ref import fjm as R2
@@ -27,7 +27,7 @@ def assemble_image(texts, w, wd, tag, use_stl=False):
     from flipjump.utils.exceptions import FlipJumpException
     out = wd / f'c03-{tag}.fjm'
     try:
-        assemble_text(texts, out, wd, w=w, version=1, use_stl=use_stl, werror=False)
+        assemble_text(texts, out, wd, w=w, version=1, use_stl=use_stl, werror=werror)
     except FlipJumpException as e:
         return ('rejected', f'{type(e).__name__}: {str(e)[:300]}')
     except Exception as e:  # noqa
@@ -84,6 +84,16 @@ def check_program(name, slots, program, w, wd, sieve, stats, split_depth, primed
         bad('image differs from the inlined program', 'identical images', {'differing (word, value) pairs': diff, 'segments': [got[1][1], ref[1][1]]},
             {'inlined': prim_text})
         return None
+    # warnings as errors (the default of the tools): a skeleton whose programs are warning-free stays so under every spelling of its names
+    from fjv import gen_macros
+    if name in gen_macros.WARNING_FREE:
+        strict = assemble_image(text, w, wd, 'strict', werror=True)
+        stats['assemblies'] += 1
+        stats['strict_mode_programs'] = stats.get('strict_mode_programs', 0) + 1
+        if strict[0] != 'ok' or strict[1] != got[1]:
+            bad('a warning-free program is refused (or changed) when warnings are errors', 'the same image',
+                strict[1] if strict[0] != 'ok' else 'different image', None)
+            return None
     # the same program next to the standard library, in a process whose first assembly defined the pool's names as constants:
     # the program's own names keep their meaning (the stl only defines macros / namespaced constants, so the image is the same)
     if primed:
